@@ -900,9 +900,15 @@ def render_lean(ex):
     o.append(f"def recAppended : List Nat := {llist(str(b) for b in r['appended'])}\n")
     t = ex["top"]
     o.append("/-! `set_general_handler!`: range expression each form forwards, as (operator, lower, upper);\n"
-             "a bound is a decimal literal or a macro fragment (`$idx`). -/\n")
-    o.append(f"def formWhole : String × String × String := ({lstr(t['whole'][0])}, {lstr(t['whole'][1])}, {lstr(t['whole'][2])})")
-    o.append(f"def formSingle : String × String × String := ({lstr(t['single'][0])}, {lstr(t['single'][1])}, {lstr(t['single'][2])})")
+             "a bound is a literal (`some n`) or the form's own macro fragment `$idx` (`none`). -/\n")
+    def lbound(b):
+        return "none" if b.startswith("$") else f"(some {b})"
+    for key, nm in (("whole", "formWhole"), ("single", "formSingle")):
+        op, lo, hi = t[key]
+        for b in (lo, hi):
+            if b.startswith("$") and (key != "single" or b != "$" + t["single_frag"]):
+                raise ExtractError(f"idt.rs: set_general_handler!: form `{key}` uses the unbound fragment `{b}`")
+        o.append(f"def {nm} : String × Option Nat × Option Nat := ({lstr(op)}, {lbound(lo)}, {lbound(hi)})")
     o.append(f"def formSingleFragment : String := {lstr('$' + t['single_frag'])}")
     o.append(f"def formRange : String := {lstr(t['range'])}")
     o.append(f"def rangeBoundType : String := {lstr(t['bound_type'])}")
